@@ -36,7 +36,9 @@ Extras == <<"",
   "d: >0.0 & <1.5\ne: {x: int & >=-128 & <=127, y: int & >=0 & <=255}",
   "d: number & >=0 & <=2\ne: {x: int & >-1 & <2, y: >=0 & <=1 & int | *\"s\"}",
   \* computed floats (no source literal to copy): large and small exponents, integral values
-  "d: 1e3 * 2\ne: [1e2 * 4, 2.5e3 * 2, 1e-8 * 3, 1.5 + 1.5, 7.0 / 2, 1e30 * 10]">>
+  "d: 1e3 * 2\ne: [1e2 * 4, 2.5e3 * 2, 1e-8 * 3, 1.5 + 1.5, 7.0 / 2, 1e30 * 10]",
+  \* a quoted label that, unquoted, would capture a reference to an outer field of the same name
+  "e: int\nd: {\"e\": 1, x: e + 1}">>
 Profiles == {"all", "final", "eval", "export"}
 Aspects == {"data", "types", "disjuncts", "defaults", "optional", "patterns", "definitions", "closedness", "hidden"}
 Shows(p) ==
